@@ -22,6 +22,33 @@ CHECKS = {
         note="Trusted: TLC, the program renderer (postfix record -> Python operator call), pysim's ctx.set/ctx.get on "
              "plain signals. Widths of intermediates <= 24 bits (TLC 32-bit integers). Constant part-select offsets "
              "only inside the operand; array indices in range."),
+    "C02": dict(
+        category="model_checking", design_ref="DESIGN.md section 4 (C02)",
+        technique="TLA+ builder state machine of the Module DSL (AmStmt) with assignment-target semantics (AmLhs); "
+                  "TLC enumerates/simulates DSL call sequences with their meaning tables; every closed program is "
+                  "replayed through the real DSL in pysim",
+        text="TLC enumerates all nestings of If/Elif/Else/Switch/Case/Default up to a length bound, every assignable "
+             "target form alone, in overlapping pairs and under a condition, FSM/State/next programs, and random long "
+             "programs over the full vocabulary; each state carries, for every valuation of inputs x previous register "
+             "contents x previous FSM state, the value of every comb-driven signal and the next value of every "
+             "sync-driven one, with AtMostOneSelected/FrameCondition invariants checked on the model. Each closed "
+             "program is rebuilt with the real Module DSL and simulated for all valuations (registers loaded by state "
+             "restore, one clock edge), comparing every signal, FSM state, ongoing() and the state after reset.",
+        note="Trusted: TLC, the syntactic renderer from program records to DSL calls, ctx.set-based state restore of "
+             "registers. One driving domain per signal inside a program; array indices in range."),
+    "C19": dict(
+        category="model_checking", design_ref="DESIGN.md section 4 (C19)",
+        technique="TLA+ contract ResMgrOps/ResMgr model-checked over all request histories of several platform tables; "
+                  "edge-covering tours replayed on the real ResourceManager; random histories and offline vendor "
+                  "constraint files validated by TLC against ResMgrTrace",
+        text="TLC explores every request history (up to length 4 quick / 5 thorough) over platform tables with "
+             "subsignals, differential pairs, chained connectors, overlapping pins, inversion and clocks, checking "
+             "OneToOne, AtMostOnce and RefusedLeavesStateUnchanged on the model (a leaking mutant must fail). Every edge "
+             "of those graphs is replayed on a fresh real ResourceManager and compared with the model's successor state "
+             "(outcome class, pin names in order, inversion, direction); random histories on random tables and the "
+             "constraint files rendered offline for iCE40/ECP5/Nexus/Gowin are validated by ResMgrTrace.",
+        note="Trusted: TLC, the syntactic table rendering (JSON <-> Resource/Connector objects), the constraint-file "
+             "regexes and RTLIL top-port reader. Toolchains needing Yosys are skipped (stated in evidence)."),
     "C05": dict(
         category="model_checking", design_ref="DESIGN.md section 4 (C05)",
         technique="same TLC-enumerated AmExpr programs as C01, evaluated by the testbench tree walker ctx.get(expr); "
